@@ -42,6 +42,30 @@ pub fn parity_row(k: u32, m: usize, ffr: bool) -> Option<Vec<bool>> {
     Some(row)
 }
 
+/// number of PRBS draws the force-full-r generator needs for row `k` over `m` fragments (None: does not terminate)
+pub fn ffr_draws(k: u32, m: usize) -> Option<usize> {
+    if m < 2 {
+        return Some(0);
+    }
+    let jig = if m.is_power_of_two() { 1 } else { 0 };
+    let mut row = vec![false; m];
+    let mut x: u32 = 1u32.wrapping_add(1001u32.wrapping_mul(k));
+    let (mut nb, mut draws) = (0usize, 0usize);
+    while nb < m / 2 {
+        x = prbs23(x);
+        draws += 1;
+        if draws > 64 * (m + 64) + 4096 {
+            return None;
+        }
+        let r = (x as usize) % (m + jig);
+        if r < m && !row[r] {
+            row[r] = true;
+            nb += 1;
+        }
+    }
+    Some(draws)
+}
+
 pub fn ffr() -> bool {
     cfg!(feature = "ffr")
 }
